@@ -59,13 +59,19 @@ def load_corpus(pid):
     return res
 
 
+def fail_kind(msg):
+    """the complaint with its data removed: numbers, byte strings, quoted text, lists"""
+    import re
+    return re.sub(r"b'(?:[^'\\]|\\.)*'|b\"(?:[^\"\\]|\\.)*\"|\[[^\]]*\]|[0-9a-f]{6,}|[0-9]+", "#", msg)[:60]
+
+
 def safe_oracle(prop, c, ops, results, side):
     """The oracle reads transcripts; a transcript it cannot interpret (a side that stopped early or answered in another
     shape) is a failure of that side, never a crash of the check."""
     try:
         return prop.oracle(c, ops, results)
     except Exception as e:                                   # noqa: BLE001
-        return [{"msg": "the %s transcript could not be interpreted by the oracle (%s: %s)" % (side, type(e).__name__, e)}]
+        return [{"msg": "the %s transcript could not be interpreted by the oracle (%s: %s)" % (side, type(e).__name__, e), "oracle_error": True}]
 
 
 def evaluate(prop, cases, bins, driver, workdir, want_model=True):
@@ -190,10 +196,13 @@ def run_property(prop, tier, seed, replay_path=None):
         # ---- 4./5. run and evaluate
         ev = evaluate(prop, cases, bins, driver, workdir)
 
-        def pred_oracle(finding_filter):
+        def pred_oracle(finding_filter, kinds=None):
             def pb(cands):
                 e = evaluate(prop, cands, bins, driver, workdir, want_model=False)
-                return [any(finding_filter(c, e[c["id"]], f) for f in e[c["id"]]["fi"]) for c in cands]
+                # a shrunk candidate the oracle cannot read is not "still failing"; and the failure must stay of the
+                # same kind (shrinking must not drift to a different complaint about a mangled case)
+                return [any(finding_filter(c, e[c["id"]], f) for f in e[c["id"]]["fi"]
+                            if not f.get("oracle_error") and (kinds is None or fail_kind(f["msg"]) in kinds)) for c in cands]
             return pb
 
         def pred_mismatch(cands):
@@ -247,7 +256,9 @@ def run_property(prop, tier, seed, replay_path=None):
 
         if unknown_fail:
             c, fs = unknown_fail[0]
-            small = shrink(prop, strip(c), pred_oracle(is_unknown)) if not replay_path else strip(c)
+            kinds = {fail_kind(f["msg"]) for f in fs if not f.get("oracle_error")} or None
+            # (properties whose cases are a fixed few ops long and whose oracle reads the cell from meta are not shrunk)
+            small = shrink(prop, strip(c), pred_oracle(is_unknown, kinds)) if (not replay_path and getattr(prop, "shrinkable", True)) else strip(c)
             small["id"] = 1
             e = evaluate(prop, [small], bins, driver, workdir)[1]
             path = write_replay(pid, {"property": pid, "kind": "oracle", "seed": seed,
